@@ -92,7 +92,7 @@ def results(chk, thorough):
     from py_ballisticcalc import helpers as H
     d = dict(MaxLen=4 if thorough else 3, RowFlags='{{}, {"R"}, {"U"}, {"D"}, {"M"}, {"R", "U"}, {"R", "D", "M"}, {"U", "D"}}')
     cfg, defs = core.consts(d)
-    chk.tlc(core.run_tlc("Results", cfg + "SPECIFICATION Spec\nINVARIANT R_ZerosInOrder\nINVARIANT R_NameInjective\nINVARIANT R_ValueRange\n",
+    chk.tlc(core.run_tlc("Results", cfg + "SPECIFICATION Spec\nINVARIANT R_ZerosInOrder\nINVARIANT R_NameInjective\nINVARIANT R_ValueRange\nINVARIANT R_FirstBelowIsFirst\n",
                          defs=defs), "Results")
     gen = core.run_tlc("Gen_Results", cfg + "INIT Init\nNEXT Next\nINVARIANT Emit\n", defs=defs, workers=1, tags=["CASE", "NAMES"])
     chk.tlc(gen, "Gen_Results")
@@ -105,9 +105,17 @@ def results(chk, thorough):
             chk.violation("X.Results.FlagName", {"module": "Results", "value": rec["v"]}, {"got": got, "want": "|".join(rec["name"])})
     shot = impl.simple_shot()
     for c in gen.out("CASE"):
-        rows = [impl.make_row(time=float(i), distance=m.Unit.Foot(float(i)), flag=v) for i, v in enumerate(c["traj"])]
+        rows = [impl.make_row(time=float(i), distance=m.Unit.Foot(float(i)), flag=v, velocity=m.Unit.MPS(float(c["vel"][i]))) for i, v in enumerate(c["traj"])]
         hr = m.HitResult(shot, rows, c["extra"])
         k = {"module": "Results", "extra": c["extra"]}
+        for qi, want_i in enumerate(c["firstBelow"]):
+            for un in (m.Unit.MPS, m.Unit.FPS, m.Unit.KMH):
+                thr = float(qi) if un == m.Unit.MPS else (m.Unit.MPS(float(qi)) >> un)
+                o_ = impl.outcome(H.find_velocity_less_than_index, hr, thr, un)
+                chk.count(1)
+                chk.stratum("results_first_row_slower_than")
+                if o_[0] != "ok" or o_[1] != want_i:
+                    chk.violation("X.Results.FirstRowSlowerThan", k, {"case": c, "threshold_mps": qi, "unit": str(un), "got": o_[1], "want": want_i})
         chk.count(1, ("results", tuple(c["traj"]), c["extra"]) if len(rows) >= 2 else None)
         o = impl.outcome(hr.zeros)
         if not c["extra"]:
@@ -610,7 +618,7 @@ def run(chk: core.Check, replay=None) -> None:
     validation(chk, thorough)
     derived(chk, thorough)
     service(chk, thorough)
-    chk.require_strata(["service_EnableFile", "service_DisableFile", "service_SetDebug", "service_Compute", "service_compute_while_logging", "service_cdm_before_any_computation", "derived_stable", "derived_no_drift", "derived_level", "derived_muzzle", "derived_fire_stable", "derived_fire_no_drift", "validation_BCPoint", "validation_DragModel", "validation_Sight", "validation_MultiBC", "validation_rejected", "validation_accepted", "output", "output_Assign", "output_LoadPreset", "atmo_SetHumidity", "atmo_Query", "atmo_rejected", "results_flag_names", "results_zeros", "results_no_extra",
+    chk.require_strata(["service_EnableFile", "service_DisableFile", "service_SetDebug", "service_Compute", "service_compute_while_logging", "service_cdm_before_any_computation", "derived_stable", "derived_no_drift", "derived_level", "derived_muzzle", "derived_fire_stable", "derived_fire_no_drift", "validation_BCPoint", "validation_DragModel", "validation_Sight", "validation_MultiBC", "validation_rejected", "validation_accepted", "output", "output_Assign", "output_LoadPreset", "atmo_SetHumidity", "atmo_Query", "atmo_rejected", "results_flag_names", "results_first_row_slower_than", "results_zeros", "results_no_extra",
                         "results_no_zero_rows", "cfgload_ValueError", "cfgload_searched", "cfgload_explicit-file",
                         "cfgload_arguments-applied", "vectors"])
     chk.rule.append("extra specification modules beyond the listed properties (Atmo, Results, ConfigLoad, VectorAlg, Output, Validation, Derived, Service), each with TLC design "
